@@ -1,12 +1,17 @@
 /-
 Line-protocol driver for the legacy-listener model (property C16).
 
-  case   :=  arity link* final '|' op (';' op)*
+  case   :=  ['E'|'I'] arity link* final '|' op (';' op)*
+             ('E': the implementation side uses a node class with value-based `__eq__` and
+              replaces items by equal clones; identity is all the listener may use, so the
+              model ignores the flag)
   arity  :=  0 | 3 | 4                     (signature of the on_trait_change handler)
   link   :=  ('c'|'k'|'b')('.'|':')        (child / kids / byname, connector after it)
   final  :=  'v' | 'x'                     (value / aux)
-  op     :=  sc o f | sk o n | ap o | in o i | dl o i | sl o i j n | cl o
-           | sb o key* | ds o key | dd o key | dc o | pv o | px o | rg | rm
+  op     :=  sc o f | sk o n | ap o | in o i | dl o i | si o i | sl o i j n | cl o
+           | sb o key* | ds o key | du o key* | di o key* | sd o key | dd o key | dp o key | dq o | dc o
+           | pv o | px o | rg | rm
+            (du = update, di = `|=`, sd = setdefault, dp = pop, dq = popitem, si = kids[i] = N())
 
 Output, one group per op, joined by " ; ":
   (ok|skip) L=<legacy calls> O=<observe spec calls> P=<lv>/<la>/<ov>/<oa> A=[..][..] H=<hooks>
@@ -33,7 +38,7 @@ def parseLink (s : String) : Option Link :=
   | _ => none
 
 def parseName (s : String) : Option Name :=
-  match words s with
+  match (words s).dropWhile (fun w => w = "E" || w = "I") with
   | ar :: rest =>
     let ty := match ar with | "0" => some LType.any | "3" => some LType.src | "4" => some LType.src | _ => none
     match ty, rest.reverse with
@@ -52,6 +57,10 @@ inductive LOp where
   | insert (o i : Nat)
   | delIdx (o i : Nat)
   | clear (o : Nat)
+  | setIdx (o i : Nat)
+  | setdefault (o k : Nat)
+  | pop (o k : Nat)
+  | popitem (o : Nat)
   | bad
 
 def nat? (s : String) : Option Nat := (clean s).toNat?
@@ -71,6 +80,14 @@ def parseOp (s : String) : LOp :=
   | "sb" :: o :: keys => match nat? o, keys.mapM nat? with
     | some o, some ks => .op (.setDict o ks) | _, _ => .bad
   | ["ds", o, k] => match nat? o, nat? k with | some o, some k => .op (.dictSet o k) | _, _ => .bad
+  | "du" :: o :: keys => match nat? o, keys.mapM nat? with
+    | some o, some ks => .op (.dictUpdate o ks) | _, _ => .bad
+  | "di" :: o :: keys => match nat? o, keys.mapM nat? with
+    | some o, some ks => .op (.dictUpdate o ks) | _, _ => .bad
+  | ["si", o, i] => match nat? o, nat? i with | some o, some i => .setIdx o i | _, _ => .bad
+  | ["sd", o, k] => match nat? o, nat? k with | some o, some k => .setdefault o k | _, _ => .bad
+  | ["dp", o, k] => match nat? o, nat? k with | some o, some k => .pop o k | _, _ => .bad
+  | ["dq", o] => match nat? o with | some o => .popitem o | _ => .bad
   | ["dd", o, k] => match nat? o, nat? k with | some o, some k => .op (.dictDel o k) | _, _ => .bad
   | ["dc", o] => match nat? o with | some o => .op (.dictClear o) | _ => .bad
   | ["pv", o] => match nat? o with | some o => .op (.probe o .value) | _ => .bad
@@ -86,6 +103,14 @@ def resolve (h : Heap) : LOp → Option Op
   | .insert o i => some (.splice o i i 1)
   | .delIdx o i => if i < (h.obj o).kids.length then some (.splice o i (i + 1) 0) else none
   | .clear o => some (.splice o 0 (h.obj o).kids.length 0)
+  | .setIdx o i => if i < (h.obj o).kids.length then some (.splice o i (i + 1) 1) else none
+  -- TraitDict.setdefault: nothing happens when the key is present
+  | .setdefault o k => if ((h.obj o).byname.find? (·.1 = k)).isSome then none else some (.dictSet o k)
+  | .pop o k => some (.dictDel o k)
+  -- dict.popitem removes the most recently inserted key
+  | .popitem o => match (h.obj o).byname.getLast? with
+    | some e => some (.dictDel o e.1)
+    | none => none
   | .bad => none
 
 def traitName : Trait → String
